@@ -423,16 +423,20 @@ class kt_arrange_perm(Contract):
            "K.normalize() (its contract, applied at the call site: the in-place postcondition of one contract used inside another) "
            "followed by a re-ordering by a permutation p of the components such that the weights are non-negative and in "
            "decreasing order and component j is the normalised component p[j].  Loop invariants over the modes.  "
-           "(arrange(weight_factor=n) is bounded only.)")
+           "arrange(weight_factor=n), for every n including 0: additionally factor n absorbs the sorted weights and the weights become one.")
     inline = KT_INLINE
 
     def case_names(self):
-        return ["permutation", "permutation-and-weight-factor", "by-weight"]
+        return ["permutation", "permutation-and-weight-factor", "by-weight", "by-weight-absorbed"]
 
     def setup(self, S, case):
         K = sym_ktensor_mut(S)
         if case == "by-weight":
             return dict(__self__=K, __byweight__=True)
+        if case == "by-weight-absorbed":
+            wf = S.int("weight_factor", 0)
+            S.assume(wf < K.ghost["N"])
+            return dict(__self__=K, __byweight__=True, weight_factor=wf)
         L = S.nat("L")
         p = S.vector("p", L, "int")
         R = K.ghost["R"]
@@ -514,6 +518,24 @@ class kt_arrange_perm(Contract):
             if not (pre and isinstance(parr, Arr)):
                 return
             pre = pre[-1]
+            if a.get("weight_factor") is not None:
+                # arrange(weight_factor=n): as arrange(), then factor n is multiplied column-wise by the (sorted) weights and
+                # every weight becomes one -- also for n = 0
+                wf, R, Nn = a["weight_factor"], g["R"], g["N"]
+                w, ent, warr = _kt_state(K)
+                pp = N.snap(parr)
+                j, m, i = z3.Int("aw!j"), z3.Int("aw!m"), z3.Int("aw!i")
+                shp = lambda m_: T.tz(g["shape"].fn(m_))
+                wn = lambda j_: pre["w"](j_) * pre["P"](Nn, j_)
+                wabs = lambda j_: z3.If(wn(j_) < 0, -wn(j_), wn(j_))
+                sn = lambda m_, i_, j_: z3.If(z3.And(m_ == 0, wn(j_) < 0), -_normalised(pre, m_, i_, j_, 2), _normalised(pre, m_, i_, j_, 2))
+                pj = T.tz(pp.fn(j))
+                yield "weights-are-one", z3.And(T.tz(T.eq(warr.shape[0], R)), T.ForAll([j], z3.Implies(z3.And(0 <= j, j < R), w(j) == 1), [w(j)]))
+                yield "other-factors-sorted-normalised", T.ForAll(
+                    [m, i, j], z3.Implies(z3.And(0 <= m, m < Nn, m != wf, 0 <= i, i < shp(m), 0 <= j, j < R), ent(m, i, j) == sn(m, i, pj)))
+                yield "chosen-factor-absorbs-the-sorted-weights", T.ForAll(
+                    [i, j], z3.Implies(z3.And(0 <= i, i < shp(wf), 0 <= j, j < R), ent(wf, i, j) == sn(wf, i, pj) * wabs(pj)))
+                return
             yield "component-j-is-the-normalised-component-p[j]", self._sorted_state(S, a, K, pre, parr, g["N"]), "lemma"
             pp = N.snap(parr)
             j, j2 = z3.Int("as!ej"), z3.Int("as!ej2")
